@@ -243,4 +243,66 @@ Section Nonce.
     destruct Psent. eexists _, _, _, _. split; [eassumption|]. split; [eassumption|]. split; [eassumption|].
     split; [rewrite Qev, Pev; reflexivity|eassumption].
   Qed.
+  (* ---------- uniqueness and consecutiveness over a whole history ---------- *)
+  (* the nonce a producing transaction answered with (nothing when it failed) *)
+  Definition resp_nonce (r : result) : list N := match r_out r with OOk (RNonce n) => [n] | _ => [] end.
+  (* the nonces handed out along a history, in order *)
+  Fixpoint produced (c : chain) (h : list step) : list N :=
+    match h with
+    | [] => []
+    | s :: h' =>
+        let r := deliver e c (fst s) (snd s) in
+        (if producer (snd s) then resp_nonce r else []) ++ produced (r_chain r) h'
+    end.
+
+  Lemma produced_consecutive h : forall c, (nn (c_st c) < two64)%N ->
+    produced c h = map (fun i : nat => ((nn (c_st c) + N.of_nat i) mod two64)%N) (seq 0 (length (produced c h))).
+  Proof.
+    induction h as [|s h IH]; intros c B; cbn [produced]; [reflexivity|].
+    set (r := deliver e c (fst s) (snd s)).
+    assert (nn (c_st (r_chain r)) < two64)%N as B'.
+    { unfold r. rewrite nn_step. destruct (_ && _); [apply N.mod_lt; discriminate|exact B]. }
+    specialize (IH (r_chain r) B'). set (tl := produced (r_chain r) h) in *.
+    pose proof (nn_step c (fst s) (snd s)) as St. fold r in St.
+    destruct (producer (snd s)) eqn:P.
+    - destruct (is_ok r) eqn:O; cbn [andb] in St.
+      + destruct (producer_ok c (fst s) (snd s) O P) as (Out&_&_). fold r in Out.
+        unfold resp_nonce. rewrite Out. cbn [app length seq map]. f_equal.
+        * rewrite N.add_0_r. symmetry. now apply N.mod_small.
+        * rewrite IH at 1. rewrite <- seq_shift, map_map. apply map_ext. intros i. rewrite St.
+          rewrite N.add_mod_idemp_l by discriminate. f_equal. lia.
+      + unfold resp_nonce. unfold is_ok in O. destruct (r_out r) as [[]| | |]; try discriminate O; cbn [app].
+        all: rewrite IH at 1; now rewrite St.
+    - rewrite andb_false_r in St. cbn [app]. rewrite IH at 1. now rewrite St.
+  Qed.
+
+  Lemma NoDup_map_in {A B} (f : A -> B) (l : list A) :
+    NoDup l -> (forall x y, In x l -> In y l -> f x = f y -> x = y) -> NoDup (map f l).
+  Proof.
+    induction 1 as [|a l Na Nl IH]; intros I; cbn [map]; constructor.
+    - intros Hin. apply in_map_iff in Hin as (b&E&Hb). apply Na.
+      rewrite (I a b) ; [exact Hb|now left|now right|now symmetry].
+    - apply IH. intros x y Hx Hy. apply I; now right.
+  Qed.
+
+  Lemma mod_shift_inj a i j : (i < two64 -> j < two64 -> (a + i) mod two64 = (a + j) mod two64 -> i = j)%N.
+  Proof. unfold two64. intros Hi Hj E. lia. Qed.
+
+  (* fewer than 2^64 successes: no nonce is handed out twice *)
+  Lemma produced_nodup h c : (nn (c_st c) < two64)%N -> (N.of_nat (length (produced c h)) <= two64)%N ->
+    NoDup (produced c h).
+  Proof.
+    intros B L. rewrite (produced_consecutive h c B). apply NoDup_map_in; [apply seq_NoDup|].
+    intros x y Hx Hy E. apply in_seq in Hx, Hy. apply mod_shift_inj in E; lia.
+  Qed.
+
+  Lemma produced_length h : forall c, N.of_nat (length (produced c h)) = ok_producers c h.
+  Proof.
+    induction h as [|s h IH]; intros c; cbn [produced ok_producers]; [reflexivity|].
+    rewrite app_length, Nat2N.inj_add, IH. f_equal.
+    destruct (producer (snd s)) eqn:P; [|now rewrite andb_false_r].
+    destruct (is_ok (deliver e c (fst s) (snd s))) eqn:O; cbn [andb].
+    - destruct (producer_ok c (fst s) (snd s) O P) as (Out&_&_). unfold resp_nonce. now rewrite Out.
+    - unfold resp_nonce. unfold is_ok in O. destruct (r_out _) as [[]| | |]; try discriminate O; reflexivity.
+  Qed.
 End Nonce.
